@@ -10,6 +10,12 @@ A "buffer_out" step is a packet-out that names a buffer announced by an earlier,
 CONTROLLER or a table miss): its list must be applied to the frame exactly as that packet-in showed it.  All OpenFlow messages are encoded here with `struct` from
 openflow.h 1.0 and replies are decoded the same way; POX's own codec is only on the receiving side.
 
+Besides well-formed frames, "irregular" ones are delivered: frames whose packet is not a well-formed one of the protocol its
+EtherType / IP protocol names (header lengths that contradict each other or the octets present, wrong versions, cut-off
+headers, wrong checksums, length fields that lie, TLVs running over the end), built constructively by pvf.ref.frames12m with one
+named irregularity each.  A datapath forwards frames, it does not police them: link-layer rewrites and outputs mean for
+them what they mean for any frame, and every octet behind the link-layer headers has to come out as it went in.
+
 Oracle: pvf.ref.of10_actions.apply() on the raw bytes (independent of pox.lib.packet), compared with
 the (port, bytes) of every DpPacketOut, the packet-in messages and the port statistics reply.
 """
@@ -20,6 +26,7 @@ from hypothesis import strategies as st
 from ..runner import Outcome, Enum, Hyp, HarnessError, exc_key
 from ..ref import frames as F
 from ..ref import frames12 as F12
+from ..ref import frames12m as F12M
 from ..ref import of10_actions as R
 
 ID = "C12"
@@ -41,9 +48,10 @@ RULE = ("a case is a script of port-mods, link-down marks and 1..3 deliveries (p
         "table on a NO_PACKET_IN port, or (f) emits after a field-modify action that is not applicable to the frame (nw/tp rewrite on "
         "ARP, on a 0x9100/0x88a8 frame that only resembles tagged IPv4, tp rewrite on ICMP ...), or (g) has a transmit failure fire in a "
         "delivery that is followed by a judged one, or (h) releases a buffer by packet-out, or (i) must emit a datagram whose transport checksum "
-        "computes to zero (UDP 0xffff, TCP 0x0000); distinct by SHA-1 of the canonical JSON of the case")
+        "computes to zero (UDP 0xffff, TCP 0x0000), or (j) emits, or shows to the controller, an irregular frame (one whose packet is not a well-formed packet "
+        "of the protocol its EtherType / IP protocol names; label irregular:<layer>:<what>); distinct by SHA-1 of the canonical JSON of the case")
 ASSUMPTIONS = [
-  "frames carry valid checksums and consistent lengths (the generator builds them with ref/frames.py and ref/frames12.py; the validator re-checks every input frame); "
+  "regular frames carry valid checksums and consistent lengths (the generator builds them with ref/frames.py and ref/frames12.py; the validator re-checks every such input frame); "
   "a link-layer trailer behind an IPv4/IPv6/ARP packet (padding to 60 octets, or a few octets) is part of the frame: it must come out again and no length or checksum covers it",
   "IPv6 (no extension headers; UDP, TCP, ICMPv6 echo) is an 'other' EtherType to OpenFlow 1.0: VLAN and dl rewrites apply, nw/tp rewrites are not applicable",
   "output to the ingress port's own number is dropped; OFPP_IN_PORT is needed to send back (OpenFlow 1.0.0 section 3.3)",
@@ -63,8 +71,19 @@ ASSUMPTIONS = [
   "a buffer id announced by a packet-in names the frame that packet-in showed (its data is a prefix of it, total_len its length), whatever the rest of the action list did afterwards; "
   "a packet-out releasing it carries the in_port the packet-in reported; only buffers of judged deliveries are released",
   "'other' frames are 802.3/LLC, SNAP (OUI 0 + IPv4/ARP PID with a well-formed packet of that kind, or a PID nothing dissects, or another OUI with opaque bytes), well-formed LLDP and EAPOL-Start/Logoff, RARP, "
-  "and EtherTypes / IP protocols the packet library does not dissect: never random bytes under a type some dissector claims; "
-  "IPv6 extension headers, IGMP, GRE, MPLS and malformed payloads of dissected protocols are left to C14/C15",
+  "and EtherTypes / IP protocols the packet library does not dissect; IPv6 extension headers, IGMP, GRE and MPLS are left to C14/C15",
+  "irregular frames (about one step in eight of the generated scripts, and the 'irregular-frames' driver) carry, behind regular Ethernet II / 802.1Q headers, a packet with exactly ONE named irregularity, "
+  "constructed by ref/frames12m.py and confirmed by its independent judge: IPv4 cut off before 20 octets, version not 4, IHL below 5, IHL beyond the octets present, IHL beyond the total length, total length below 20, "
+  "total length beyond the octets present (datagram cut short), wrong header checksum; TCP cut off, data offset below 5 or beyond the segment, option lengths 0 / 1 / running over the header, wrong checksum; "
+  "UDP cut off, length field below 8 / beyond / short of the segment, wrong checksum; ICMP cut off before 4 octets, wrong checksum; ARP cut off, with address lengths other than 6 / 4, for other hardware / protocol types; "
+  "IPv6 cut off, version not 6, payload length beyond the octets present, UDP / TCP cut off or with a wrong checksum inside it, octets behind a No-Next-Header (legal, nothing to dissect); LLDP cut off, a TLV running over the end, no End TLV, "
+  "mandatory TLVs missing or out of order; EAPOL cut off, body length beyond the octets present (Key / ASF-Alert).  They are real inputs: damaged, truncated or hostile frames reach every switch port",
+  "for an irregular frame outputs, VLAN set / strip and dl rewrites mean what they always mean and every octet behind the link-layer headers must come out as it went in (to ports, in packet-ins, in the byte counters); "
+  "an nw/tp rewrite on a packet whose IPv4 header can still be read but which is irregular elsewhere is an open zone (which lengths it trusts, which checksums it repairs) - judged for 'no exception' and the port guards from that action on; "
+  "on a packet whose IPv4 header cannot be read it is open as before (ipv4-malformed / ipv4-truncated), on ARP / IPv6 / LLDP / EAPOL it may touch nothing",
+  "where only a DERIVED field lies (a checksum, the UDP length, the IP length of a datagram cut short) the frame must still come out as it went in - no action touched it; a datapath that re-serialises emits it with that field 'made valid' "
+  "instead. That outcome is computed too (ref/of10_actions.make_derived_valid), only to name it apart from any other damage: it is reported under its own key (family checksum-lie / length-lie, field = the lying field; "
+  "open known findings of the re-serialisation family), anything else under the key of what differs (shorter / longer / the first differing field)",
 ]
 EXHAUSTIVE_SCOPE = {
   "quick": "all 64 x 64 combinations of {PORT_DOWN, NO_RECV, NO_RECV_STP, NO_FLOOD, NO_FWD, NO_PACKET_IN} on ingress port 1 and egress port 2 of a 3-port switch (set by port-mod), "
@@ -76,7 +95,9 @@ EXHAUSTIVE_SCOPE = {
            "and [CONTROLLER, one of the 10 field-modify actions, output:2] on 4 frames x {flow, packet-out} x max_len {0, 0xffff} followed by a packet-out releasing the announced buffer with 3 lists, plus table-miss buffers; "
            "and UDP and TCP datagrams whose checksum computes to zero as they arrive or after one of set_nw_src / set_nw_dst / set_tp_src / set_tp_dst, the free word being the first payload word, the source or the destination port, "
            "x even / odd payload x {untagged, tagged} x {flow, packet-out}, and over IPv6 for plain output; "
-           "and IPv4 UDP/TCP/ICMP, IPv6 UDP/TCP and ARP frames x {untagged, tagged} x {padded to 60 octets, 3-octet non-zero trailer} x {no rewrite, 6 rewrites} x {flow, packet-out} plus table miss",
+           "and IPv4 UDP/TCP/ICMP, IPv6 UDP/TCP and ARP frames x {untagged, tagged} x {padded to 60 octets, 3-octet non-zero trailer} x {no rewrite, 6 rewrites} x {flow, packet-out} plus table miss; "
+           "and each of the 36 kinds of irregular packet (see ASSUMPTIONS) x 3 parameter sets x {untagged, tagged} x {as built, padded to 60 octets, 3-octet non-zero trailer - where the irregularity admits a trailer} "
+           "x {plain output, set_vlan_vid, strip_vlan, set_dl_src} x {flow, packet-out}, each with output:2 and output:CONTROLLER, plus table miss",
   "thorough": "as quick, additionally with a tagged TCP frame and the list [strip_vlan, ALL, set_tp_dst, output:2, set_nw_dst, FLOOD, enqueue:2, CONTROLLER]",
 }
 
@@ -505,7 +526,7 @@ def _match(events, emitted, pktins, in_port, ctl_optional, miss_send_len, comple
       if p != e[1]:
         return "emit-ports", {"kind": "wrong-port"}, "expected a frame on port %d, got one on port %d" % (e[1], p)
       if b != e[2]:
-        return "frame-bytes", {"field": F12.first_difference(e[2], b)}, \
+        return "frame-bytes", {"field": F12.first_difference(e[2], b), "_delta": len(b) - len(e[2])}, \
                "frame on port %d differs\n expected %s\n actual   %s" % (p, e[2].hex(), b.hex()), F12.byte_distance(e[2], b)
       i += 1
     elif e[0] == "flood":
@@ -516,7 +537,7 @@ def _match(events, emitted, pktins, in_port, ctl_optional, miss_send_len, comple
             sorted(p for p, _ in e[1]), [p for p, _ in emitted[i:i + k + 1]])
       for (p, b) in chunk:
         if b != e[1][0][1]:
-          return "frame-bytes", {"field": F12.first_difference(e[1][0][1], b)}, \
+          return "frame-bytes", {"field": F12.first_difference(e[1][0][1], b), "_delta": len(b) - len(e[1][0][1])}, \
                  "flooded frame on port %d differs\n expected %s\n actual   %s" % (p, e[1][0][1].hex(), b.hex()), F12.byte_distance(e[1][0][1], b)
       i += k
     elif e[0] == "ctl":
@@ -539,8 +560,10 @@ def _match(events, emitted, pktins, in_port, ctl_optional, miss_send_len, comple
     if r is not None:
       if r[0] == "data":
         n = len(pi["data"])
-        return "frame-bytes", {"field": F12.first_difference(frame[:n], pi["data"])}, r[1], F12.byte_distance(frame[:n], pi["data"])
-      return "packet-in", {"field": r[0]}, r[1]
+        return "frame-bytes", {"field": F12.first_difference(frame[:n], pi["data"]),
+                               "_delta": (pi["total_len"] - len(frame)) if pi["buffer_id"] != NO_BUFFER else (n - len(frame))}, \
+               r[1], F12.byte_distance(frame[:n], pi["data"])
+      return "packet-in", {"field": r[0], "_delta": (pi["total_len"] - len(frame)) if r[0] == "total_len" else 0}, r[1]
   return None
 
 
@@ -682,14 +705,34 @@ def _run(case, sw, out, nt):
       candidates = [frame]
     is_packet_out = mode == "packet_out"
     actions = step.get("actions") or []
-    problems = F12.validate(frame)
-    if problems:
-      raise HarnessError("generator produced an invalid input frame: %r %s" % (problems, frame.hex()))
+    # An irregular frame: what follows the link-layer headers is not a well-formed packet of the kind its EtherType / IP
+    # protocol names.  The generator says so (a released buffer holds whatever the earlier delivery put there) and the
+    # independent judge in ref/frames12m.py must agree and names the irregularity.
+    irregular = None
+    if step.get("irregular") or buffer_id is not None:
+      irr = F12M.problems(frame)
+      if irr:
+        irregular = irr[0]
+      elif step.get("irregular"):
+        raise HarnessError("generator announced an irregular frame, the judge finds it regular: %s" % frame.hex())
+    if irregular is None:
+      problems = F12.validate(frame)
+      if problems:
+        raise HarnessError("generator produced an invalid input frame: %r %s" % (problems, frame.hex()))
     fclass, ntags, dis = frame_class(frame)
+    if irregular is not None:
+      fclass = "irregular-" + irregular.split(":")[0]
+      out.label("irregular:" + irregular, "irregular-family:" + F12M.family(irregular))
     is_frag = fclass.endswith("-fragment")
     kd = {"frame": fclass}            # what byte-level damage is keyed by: the kind of frame ...
     d6 = F12.dissect6(frame)
-    if ("ipv4" in dis and dis.get("ethertype") == F.ETH_IP and dis["ipv4"]["off"] + dis["ipv4"]["total_len"] < len(frame)) or (d6 and d6["trailer"]):
+    if irregular is not None:
+      # ... for an irregular frame: the family of the irregularity and the layer it sits in
+      kd = {"family": F12M.family(irregular), "inner": irregular.split(":")[0]}
+      if F12M.trailer_len(frame):
+        kd["trailer"] = "ip"
+        out.label("trailer")
+    elif ("ipv4" in dis and dis.get("ethertype") == F.ETH_IP and dis["ipv4"]["off"] + dis["ipv4"]["total_len"] < len(frame)) or (d6 and d6["trailer"]):
       kd["trailer"] = "ip"            # ... and whether link-layer padding follows the IP datagram
       out.label("trailer")
     if buffer_id is None:
@@ -841,14 +884,25 @@ def _run(case, sw, out, nt):
     res0 = None
     matches = []
     # every admitted reading (and, for a released buffer, every frame the packet-in was consistent with) is tried
-    for cand, v in [(c, v) for c in candidates for v in _variants(c, lists)]:
+    readings = [(c, v) for c in candidates for v in _variants(c, lists)]
+    if irregular in F12M.LYING_FIELD:
+      # only a derived field (a checksum, a length) is wrong: besides the frame as it is, the frame with that field made
+      # valid is computed -- not as an admitted outcome, but to name that outcome (re-serialisation) apart from any other
+      readings = [(c, dict(v, derived=dv)) for dv in ("keep", "valid") for c, v in readings]
+    normalised = []
+    for cand, v in readings:
       f0 = cand
+      derived = v.pop("derived", "keep")
       if mode == "miss":
         res = R.Result()
         res.events.append(("miss", f0))
         res.final = f0
       else:
-        res = R.apply(f0, actions, in_port, port_state, from_flow=(mode == "flow"), table=table_lookup, **v)
+        res = R.apply(f0, actions, in_port, port_state, from_flow=(mode == "flow"), table=table_lookup, irregular=irregular, **v)
+      if derived == "valid":
+        mk = R.make_derived_valid
+        res.events = [("flood", [(p_, mk(f_)) for p_, f_ in e[1]]) if e[0] == "flood" else
+                      (("out", e[1], mk(e[2])) if e[0] == "out" else (e[0], mk(e[1])) + tuple(e[2:])) for e in res.events]
       if res0 is None:
         res0 = res
       if res.table_lookups and ((icfg & (R.OFPPC_NO_RECV | R.OFPPC_NO_RECV_STP)) or ingress_down or (frag_mode == 1 and is_frag)):
@@ -859,7 +913,7 @@ def _run(case, sw, out, nt):
       if no_pktin:
         res.events = [e for e in res.events if e[0] != "miss"]
       for e in res.physical():
-        bad = F12.validate(e[1])
+        bad = F12.validate(e[1]) if irregular is None else []
         if bad:
           raise HarnessError("reference model produced an invalid frame %r: %s" % (bad, e[1].hex()))
       # An action that OpenFlow 1.0 defines only for IPv4 / TCP / UDP met another kind of frame: it may touch nothing.
@@ -876,9 +930,12 @@ def _run(case, sw, out, nt):
           break
         if m is None:
           m = mk
-      if matched is not None:
+      if matched is not None and derived == "valid":
+        if any(e[0] in ("out", "flood", "ctl", "miss") and (e[1] if e[0] != "out" else True) for e in matched):
+          normalised.append(matched)      # (a reading under which nothing is shown to anybody proves nothing)
+      elif matched is not None:
         matches.append(matched)
-      else:
+      elif derived == "keep":
         failures.append(m)
     if matches:
       failures = []
@@ -927,12 +984,25 @@ def _run(case, sw, out, nt):
         nt[0] = True                      # something is emitted after an action that had to leave the frame alone
     if _classify(out, res, lists, actions, in_port, port_state, ntags, mode, no_pktin):
       nt[0] = True
+    if irregular is not None and res.events:
+      nt[0] = True                        # an irregular frame has to leave (or be shown to the controller) as it is
+      out.label("irregular-emitted")
+      if any(a["a"] in REWRITES for a in actions):
+        out.label("irregular-rewritten")
 
     if failures:
       # several readings were tried: report against the one the switch came closest to
       failures.sort(key=lambda m: (m[0] != "frame-bytes", m[3] if len(m) > 3 else 0))
       clause, disc, msg = failures[0][:3]
       disc = dict(disc)
+      delta = disc.pop("_delta", 0)
+      if irregular is not None and clause in ("frame-bytes", "packet-in"):
+        if normalised and clause == "frame-bytes":
+          # exactly the frame a re-serialising datapath emits: the field that was wrong has been made valid
+          disc["field"] = F12M.LYING_FIELD[irregular]
+          msg = "no action touches the packet, yet it left with %s made valid (re-serialised)\n%s" % (disc["field"], msg)
+        elif delta:
+          disc["field"] = "shorter" if delta < 0 else "longer"
       if clause in ("frame-bytes", "packet-in"):
         disc.update(kd)                 # byte-level damage is a matter of the frame kind; port decisions are not
         if buffer_id is not None:
@@ -990,7 +1060,11 @@ def _check_stats(out, sw, port_state, tx, rx_lo, rx_hi, fclass, single=None, reb
     elif not (rx_lo[p][1] <= rxb <= rx_hi[p][1]):
       bad = ("rx_bytes", "port %d: rx_bytes %d, expected %d..%d" % (p, rxb, rx_lo[p][1], rx_hi[p][1]))
     if bad:
-      if bad[0].endswith("_bytes") and isinstance(fclass, dict):
+      if bad[0].endswith("_bytes") and isinstance(fclass, dict) and "family" in fclass:
+        # an irregular frame counted with another length than it has: the same damage as a frame emitted shorter / longer
+        less = (rxb < rx_lo[p][1]) if bad[0] == "rx_bytes" else (txb < tx[p][1])
+        _vkey(out, "port-stats", bad[1], field="shorter" if less else "longer", counter=bad[0], **fclass)
+      elif bad[0].endswith("_bytes") and isinstance(fclass, dict):
         _vkey(out, "port-stats", bad[1], field=bad[0], **fclass)
       else:
         _vkey(out, "port-stats", bad[1], field=bad[0])
@@ -1262,6 +1336,58 @@ def _frame_no_trailer(draw):
   return F.build_eth(dst, src, draw(st.sampled_from([0x0600, 0x0801, 0x1234, 0xffff, 0x22f3])), body, vlan=vlan)
 
 
+@st.composite
+def _irregular_frame(draw):
+  """A frame whose packet has exactly one named irregularity (ref/frames12m.py builds it from a few drawn integers):
+  header lengths that contradict each other or the octets present, wrong versions, cut-off headers, wrong checksums,
+  TLVs running over the end -- under IPv4 (and TCP / UDP / ICMP inside it), ARP, IPv6, LLDP and EAPOL; untagged or tagged,
+  with or without a link-layer trailer where the irregularity admits one."""
+  dst = draw(st.one_of(st.sampled_from([R.STP_MAC, b"\xff" * 6]), _MAC, _MAC, _MAC))
+  src = draw(_MAC)
+  kind = draw(st.sampled_from(F12M.KINDS))
+  p = {"a": draw(st.integers(0, 255)), "b": draw(st.integers(0, 15)),
+       "n": draw(st.integers(0, 20)) * 2 + (1 if draw(st.integers(0, 2)) == 2 else 0), "seed": draw(st.integers(0, 250))}
+  if draw(st.integers(0, 3)) == 3:
+    p.update({"src": draw(_U32), "dst": draw(_U32), "tos": draw(st.sampled_from([0, 0xb8, 0xff])), "ident": draw(_U16),
+              "ttl": draw(st.sampled_from([1, 64, 255])), "sport": draw(_U16), "dport": draw(_U16)})
+  et, pkt = F12M.build(kind, p)
+  v = draw(st.integers(0, 9))
+  vlan = None
+  if v >= 6:
+    vlan = [[draw(st.integers(0, 7)), 1 if v == 8 else 0, draw(st.sampled_from([0, 1, 100, 4095]))]]
+    if v == 9:
+      vlan.append([draw(st.integers(0, 7)), 0, draw(st.integers(0, 4095))])
+  fr = F.build_eth(dst, src, et, pkt, vlan=vlan)
+  if F12M.may_take_trailer(kind):
+    t = draw(st.integers(0, 5))
+    if t == 3:
+      fr = fr + bytes(max(1, 60 - len(fr)))
+    elif t >= 4:
+      fr = fr + draw(st.binary(min_size=1, max_size=8))
+  return fr
+
+
+_TO_L2 = {"set_nw_src": "set_dl_src", "set_nw_dst": "set_dl_dst", "set_nw_tos": "set_vlan_pcp", "set_tp_src": "set_vlan_vid", "set_tp_dst": "strip_vlan"}
+
+
+def _l2_only(actions):
+  """The list with every nw/tp rewrite turned into a link-layer rewrite carrying the same number."""
+  out = []
+  for a in actions:
+    k = _TO_L2.get(a["a"])
+    if k is None:
+      out.append(a)
+    elif k in ("set_dl_src", "set_dl_dst"):
+      out.append({"a": k, "v": b"\x02\x00" + struct.pack("!L", a["v"] & 0xffffffff)})
+    elif k == "set_vlan_pcp":
+      out.append({"a": k, "v": a["v"] & 7})
+    elif k == "set_vlan_vid":
+      out.append({"a": k, "v": a["v"] & 0x0fff})
+    else:
+      out.append({"a": k})
+  return out
+
+
 def _phys_port(nports):
   return st.integers(1, nports)
 
@@ -1330,7 +1456,8 @@ def step_strategy(draw, nports, mode=None):
   if mode is None:
     m = draw(st.integers(0, 19))
     mode = "packet_out" if m <= 8 else ("flow" if m <= 17 else "miss")
-  frame = draw(frame_strategy())
+  irregular = draw(st.integers(0, 7)) == 7
+  frame = draw(_irregular_frame() if irregular else frame_strategy())
   if mode == "packet_out":
     in_port = draw(st.one_of(_phys_port(nports), _phys_port(nports), _phys_port(nports),
                              st.sampled_from([R.OFPP_NONE, R.OFPP_NONE, R.OFPP_NONE, R.OFPP_CONTROLLER, R.OFPP_CONTROLLER, nports + 1])))
@@ -1343,6 +1470,9 @@ def step_strategy(draw, nports, mode=None):
     step["actions"] = draw(_action_list(nports, mode == "packet_out"))
   if mode == "flow":
     step["match"] = draw(st.sampled_from(["all", "all", "in_port"]))
+  if irregular:
+    step["irregular"] = True
+    step["l2_only"] = draw(st.integers(0, 3)) != 0      # mostly lists whose meaning for such a frame is fully specified
   return step
 
 
@@ -1423,6 +1553,13 @@ def case_strategy(draw):
     case["steps"] = case["steps"] + [{"mode": "buffer_out", "which": draw(st.integers(0, 3)), "actions": draw(_action_list(nports, True))}]
   if draw(st.booleans()):
     case["stats_port"] = draw(_phys_port(nports))
+  if any(s_.get("l2_only") for s_ in case["steps"]):
+    # every list that can meet the irregular frame (its own, a flow's behind OFPP_TABLE, a later buffer release)
+    for s_ in case["steps"]:
+      if "actions" in s_:
+        s_["actions"] = _l2_only(s_["actions"])
+  for s_ in case["steps"]:
+    s_.pop("l2_only", None)
   return case
 
 
@@ -1721,6 +1858,34 @@ def _trailer_cases():
         yield {"nports": 3, "steps": [step]}
 
 
+def _irregular_cases():
+  """Every kind of irregular packet ref/frames12m.py builds x 3 parameter sets x {untagged, tagged} x {as built, padded to 60
+  octets / by one octet, 3-octet non-zero trailer} (where the irregularity admits a trailer) x {plain output, set_vlan_vid,
+  strip_vlan, set_dl_src before the output} x {flow, packet-out} plus table miss: every octet behind the link-layer
+  headers must come out as it went in, to the port and to the controller."""
+  A, B = bytes.fromhex("0200000000a1"), bytes.fromhex("0200000000b2")
+  acts = [None, {"a": "set_vlan_vid", "v": 7}, {"a": "strip_vlan"}, {"a": "set_dl_src", "v": bytes.fromhex("02aabbccdd01")}]
+  for kind in F12M.KINDS:
+    for p in ({"a": 0, "b": 0, "n": 4, "seed": 1}, {"a": 9, "b": 1, "n": 21, "seed": 2}, {"a": 4, "b": 2, "n": 9, "seed": 3}):
+      et, pkt = F12M.build(kind, p)
+      for vlan in (None, (2, 0, 9)):
+        fr0 = F.build_eth(B, A, et, pkt, vlan=vlan)
+        frames = [fr0]
+        if F12M.may_take_trailer(kind):
+          frames += [fr0 + bytes(range(1, max(1, 60 - len(fr0)) + 1)), fr0 + b"\xde\xad\xbe"]
+        for fr in frames:
+          for a in acts:
+            for mode in ("flow", "packet_out", "miss"):
+              if mode == "miss" and a is not None:
+                continue
+              step = {"mode": mode, "frame": fr, "in_port": 1, "irregular": True}
+              if mode != "miss":
+                step["actions"] = ([a] if a else []) + [{"a": "output", "port": 2, "max_len": 0}, {"a": "output", "port": R.OFPP_CONTROLLER, "max_len": 0xffff}]
+              if mode == "flow":
+                step["match"] = "all"
+              yield {"nports": 3, "steps": [step]}
+
+
 def plan(tier):
   n = 4000 if tier == "quick" else 300000
   return [
@@ -1733,5 +1898,6 @@ def plan(tier):
     Enum("buffered-packet-out", _buffered_cases, shards=2),
     Enum("checksum-boundary", _boundary_cases, shards=2),
     Enum("trailers", _trailer_cases, shards=2),
+    Enum("irregular-frames", _irregular_cases, shards=8),
     Hyp("generated", case_strategy, examples=n, shards=16),
   ]
